@@ -39,6 +39,18 @@ Proof.
 Qed.
 Print Assumptions C03_trexp_se3_is_expm_series.
 
+(* 2-D: trexp2(S, theta) on a unit se(2) twist S = (t0, t1, w), w = +-1, all 9 entries; [S] = se2_hat S *)
+Theorem C03_trexp2_is_expm_series : forall (t0 t1 w th : R), w * w = 1 ->
+  let S := (t0,t1,w) in
+  forall i j, (i < 3)%nat -> (j < 3)%nat ->
+  is_pseries (fun k => e33 (mpow33 (se2_hat S) k) i j / INR (fact k)) th (e33 (trexp2_unit Rops C03_thr S th) i j).
+Proof.
+  intros t0 t1 w th Hw S i j Hi Hj.
+  assert (HK : thr_ok C03_thr) by (unfold thr_ok, C03_thr; cbn; repeat split; lra).
+  exact (trexp2_unit_is_expm_series C03_thr t0 t1 w th HK Hw i j Hi Hj).
+Qed.
+Print Assumptions C03_trexp2_is_expm_series.
+
 (* non-vacuity: a unit axis, and the first terms of one entry: about z, entry (0,1) is -sin theta = -theta + theta^3/6 - ... *)
 Example C03_series_nonvacuous :
   normsq3 Rops (0, 3/5, 4/5) = 1 /\
